@@ -227,6 +227,11 @@ def _run_cmd(cmd: int, ch_style: int, present0: bool, present1: bool, symbolic: 
     pre: not dst_pre or (cmd != 2 and present0)
     post: _
     """
+    return _do_cmd(cmd, ch_style, present0, present1, symbolic, dst_pre)
+
+
+def _do_cmd(cmd, ch_style, present0, present1, symbolic, dst_pre):
+    # (no contract of its own: CrossHair assumes the contracts of callees and silently drops paths on which they fail)
     # cp (0) / mv (1) / ln (2) with the listing replaced by a stub yielding 0..2 files below the (normalised) source: exactly the listed
     # files arrive at dest/<same relative path>, directories are created as needed, cp/ln leave the source unchanged, mv removes exactly
     # what it transferred; the channel option may be given as 'ch0', 'ch0/', './ch0' or not at all
@@ -253,7 +258,8 @@ def _run_cmd(cmd: int, ch_style: int, present0: bool, present1: bool, symbolic: 
     L.os.path.abspath = staticmethod(posixpath.normpath)
     try:
         a = Args(); a.src = '/s'; a.dest = '/d'; a.chs = [','.join(chs)] if chs else []; a.starttime = None; a.endtime = None; a.func = None
-        a.recursive = True; a.reverse = False; a.include_drf = True; a.include_dmd = True; a.include_drf_properties = None; a.include_dmd_properties = None
+        # every forwarded selection option carries its own sentinel value, so a mix-up between two options is visible in what the listing receives
+        a.recursive = 'REC'; a.reverse = 'REV'; a.include_drf = 'IDRF'; a.include_dmd = 'IDMD'; a.include_drf_properties = 'PDRF'; a.include_dmd_properties = 'PDMD'
         if cmd == 2: a.symbolic = symbolic
         (L._run_cp if cmd == 0 else (L._run_mv if cmd == 1 else L._run_ln))(a)
     finally:
@@ -267,8 +273,8 @@ def _run_cmd(cmd: int, ch_style: int, present0: bool, present1: bool, symbolic: 
     # nothing else appeared at the destination
     ok = ok and sorted(p for p in fs.files if p.startswith('/d')) == sorted(dbase + '/' + r for r in rels)
     # same selection options as a listing would get
-    ok = ok and len(calls) == 1 and calls[0][1] == dict(recursive=True, reverse=False, starttime=None, endtime=None, include_drf=True, include_dmd=True,
-                                                         include_drf_properties=None, include_dmd_properties=None)
+    ok = ok and len(calls) == 1 and calls[0][1] == dict(recursive='REC', reverse='REV', starttime=None, endtime=None, include_drf='IDRF', include_dmd='IDMD',
+                                                         include_drf_properties='PDRF', include_dmd_properties='PDMD')
     return ok
 
 
@@ -288,7 +294,7 @@ def _run_cp(ch_style: int, present0: bool, present1: bool, dst_pre: bool) -> boo
     pre: 0 <= ch_style <= 3 and (not dst_pre or present0)
     post: _
     """
-    return _run_cmd(0, ch_style, present0, present1, False, dst_pre)
+    return _do_cmd(0, ch_style, present0, present1, False, dst_pre)
 
 
 def _run_mv(ch_style: int, present0: bool, present1: bool, dst_pre: bool) -> bool:
@@ -296,7 +302,7 @@ def _run_mv(ch_style: int, present0: bool, present1: bool, dst_pre: bool) -> boo
     pre: 0 <= ch_style <= 3 and (not dst_pre or present0)
     post: _
     """
-    return _run_cmd(1, ch_style, present0, present1, False, dst_pre)
+    return _do_cmd(1, ch_style, present0, present1, False, dst_pre)
 
 
 def _run_ln(ch_style: int, present0: bool, present1: bool, symbolic: bool) -> bool:
@@ -304,7 +310,7 @@ def _run_ln(ch_style: int, present0: bool, present1: bool, symbolic: bool) -> bo
     pre: 0 <= ch_style <= 3
     post: _
     """
-    return _run_cmd(2, ch_style, present0, present1, symbolic, False)
+    return _do_cmd(2, ch_style, present0, present1, symbolic, False)
 
 
 def _run_witness(cmd: int, present0: bool) -> bool:
@@ -312,4 +318,4 @@ def _run_witness(cmd: int, present0: bool) -> bool:
     pre: 0 <= cmd <= 2
     post: _
     """
-    return not (_run_cmd(cmd, 1, present0, False, False, False) and present0)      # reachability twin: a successful one-file transfer is reachable
+    return not (_do_cmd(cmd, 1, present0, False, False, False) and present0)      # reachability twin: a successful one-file transfer is reachable
